@@ -129,6 +129,7 @@ pub fn c01_op(universe: u8) -> impl Strategy<Value = HOp> {
         7 => any::<u16>().prop_map(|i| HOp::CompleteIo { i }),
         2 => Just(HOp::Drain),
         1 => Just(HOp::Wait),
+        1 => Just(HOp::Clear),
         1 => Just(HOp::Reopen),
     ]
 }
